@@ -472,7 +472,7 @@ func TestTwistedEdwards(t *testing.T) {
 		names = append(names, teNames...)
 	}
 	g := genTE(names)
-	rec.Check(t, "te", ev.N(150, 8000), func(rt *rapid.T) {
+	checkSerial(rec, t, "te", ev.N(150, 8000), func(rt *rapid.T) {
 		c := g.Draw(rt, "case")
 		if sig := excludedTE(c.Curve, c.Op, c.Scalars); sig != "" {
 			rec.Discarded("te:excluded shape of open finding " + sig)
@@ -686,7 +686,7 @@ func TestEdDSA(t *testing.T) {
 		names = append(names, teNames...)
 	}
 	g := genEdDSA(names)
-	rec.Check(t, "eddsa", ev.N(60, 4000), func(rt *rapid.T) {
+	checkSerial(rec, t, "eddsa", ev.N(60, 4000), func(rt *rapid.T) {
 		c := g.Draw(rt, "case")
 		rec.Report(rt, "eddsa", c, runEdDSA(c))
 	})
@@ -845,7 +845,7 @@ func TestAdversaryTwistedEdwards(t *testing.T) {
 		c.K = rapid.IntRange(0, 3).Draw(t, "k")
 		return c
 	})
-	rec.Check(t, "te-adv", ev.N(120, 6000), func(rt *rapid.T) {
+	checkSerial(rec, t, "te-adv", ev.N(120, 6000), func(rt *rapid.T) {
 		c := g.Draw(rt, "case")
 		if sig := excludedTE(c.Curve, "ScalarMul", []string{c.S}); sig != "" {
 			rec.Discarded("te-adv:excluded shape of open finding " + sig)
